@@ -243,11 +243,6 @@ func newSizeLimitMiddleware(name string, cfg map[string]interface{}) (Middleware
 				return
 			}
 
-			// Limit request body size for cases where Content-Length is not set
-			// http.MaxBytesReader returns a ReadCloser that stops reading once
-			// the limit is exceeded and returns an error
-			r.Body = http.MaxBytesReader(w, r.Body, maxRequestBody)
-
 			// Wrap response writer to limit response size
 			lrw := &limitedResponseWriter{
 				ResponseWriter: w,
@@ -259,6 +254,15 @@ func newSizeLimitMiddleware(name string, cfg map[string]interface{}) (Middleware
 				ctx:            r.Context(),
 				headRequest:    r.Method == http.MethodHead,
 			}
+
+			// Limit request body size for cases where Content-Length is not set
+			// http.MaxBytesReader returns a ReadCloser that stops reading once
+			// the limit is exceeded and returns an error. It is given the wrapper, not the
+			// connection's own response writer: on that one net/http sets "close the connection
+			// after the reply" when the limit is crossed, from whichever goroutine is reading the
+			// body - behind the plugin that is the backend transport's goroutine, while the
+			// handler's goroutine may be writing the response header (a data race)
+			r.Body = http.MaxBytesReader(lrw, r.Body, maxRequestBody)
 
 			// Call next handler with the limited response writer
 			next.ServeHTTP(lrw, r)
